@@ -15,7 +15,9 @@ RUN_NOTE = ("Trusted: Coq 8.16.1 kernel incl. vm_compute (no native_compute); no
             "property theorem: Closed under the global context). The theorems are about the Gallina reference semantics "
             "(coq/RefSem.v). The faithful net model (coq/NetModel.v) is PROVED to produce the reference semantics' trace on the "
             "fragment services / task calls / Parallel / Condition / While / counting loops in the production task (coq/Refine, Properties/Refinement.v: "
-            "net_refines_ref_fragment; all programs, oracles, scripts; engines without immediate or re-entrant completions; "
+            "net_refines_ref_fragment; all programs, oracles, scripts; ANY set of immediate completions from inside the "
+            "service-started notification (then no further service-started function / observer in the script: with them the two "
+            "models order the log entries differently), no completions of OTHER services from inside notifications, no mutation; "
             "test identifiers; every sufficiently large fuel; Properties/RefinementTransfer.v: on that fragment every successful run "
             "of the net model, with any fuel, IS the reference trace, and the monitors holds_C01 / C07 / C04ctx / C08 / C14 / C17 / "
             "C20 accept the FAITHFUL model's trace - net_C01_fragment etc., assuming the reference run succeeds); outside that fragment, and between the implementation and the "
@@ -311,6 +313,19 @@ NOT_YET = "check not built yet in this revision (see DESIGN.md §11 staging); wi
 
 
 # theorems added after the first integration round (separate restatement files Properties/<X>.v)
+for _p in ("C02", "C03", "C05"):
+    CLAIMS[_p]["text"] += (
+        " ADDITIONALLY PROVED for ALL schedules, immediate-completion sets and histories (MonitorsSeq.v, RefC02.v, "
+        "Properties/C02seq.v): every trace of the reference semantics satisfies the executable sequencing monitor "
+        "mon_C02seq (C02_seq_programs) - within a task instance no two sibling statements of a block are in progress "
+        "together (only earlier branches of the same Parallel / other instances of the same parallel loop may be), statements "
+        "start in source order (a position starts again only inside a loop), a statement starts only in a call in which its "
+        "instance was started or one of its statements finished earlier in that call, at the end of every call every open "
+        "task instance has a statement in progress (nothing is deferred), finishes match - and on the fragment of "
+        "Properties/Refinement.v so does every trace of the faithful net model (net_C02seq_fragment). The same monitor is "
+        "applied to every implementation trace. Outside a trace's reach: that no statement is skipped (a silent Condition and "
+        "a zero-iteration loop look like a skipped statement) - this stays with the denotation / confluence theorems and the "
+        "literal trace comparison.")
 CLAIMS["C04"]["text"] += (
     " ADDITIONALLY PROVED for ALL schedules and histories (RefC04.v, Properties/C04ctx.v): every variable query names a task "
     "instance that has been announced started and not yet finished at that moment (C04_query_context_ref, monitor "
